@@ -209,6 +209,21 @@ def program_st(draw, max_features=3, faults=True, cfg=None, peek=True, **kw):
     prog = {"features": feats, "cfg": draw(cfg if cfg is not None else cfg_st())}
     if peek and draw(st.integers(0, 3)) == 0:
         prog["peek"] = True         # hooks read element statuses (harness.Plan.peek)
+    if prog["cfg"].get("tagx") and prog["cfg"].get("dialect") == "v2" and draw(st.integers(0, 3)) == 0:
+        # select through a tag that exists only in RENDERED form on outline rows (@<column> tag placeholder)
+        cells = []
+        for f in feats:
+            for it in f["items"]:
+                for sub in (it["items"] if it["k"] == "r" else [it]):
+                    if sub["k"] == "o":
+                        for t in sub["tags"]:
+                            if t.startswith(u"<"):
+                                for ex in sub["ex"]:
+                                    if t[1:-1] in ex["cols"]:
+                                        cells += [row[ex["cols"].index(t[1:-1])] for row in ex["rows"]]
+        if cells:
+            prog["cfg"]["tagx"] = ["tag", draw(st.sampled_from(cells))]
+            prog["cfg"].pop("tagform", None)
     if faults:
         if draw(st.integers(0, 5)) == 0:
             # hooks decorated with behave.log_capture.capture (documented for environment functions)
